@@ -6,6 +6,7 @@ import TetlProofs.C10.Parse
 import TetlProofs.C10.Strto
 import TetlProofs.C10.Unchecked
 import TetlProofs.C10.SpecMathlib
+import TetlProofs.C06.Props
 namespace Tetl.C10.Props
 open Tetl Tetl.C10
 
@@ -88,6 +89,31 @@ theorem fromInteger_eq (t : IntTy) (term : Bool) (v : Int) (buf : List Nat) (b :
 example : fromInteger ⟨8, true⟩ true (-128) (List.replicate 10 170) 2
     = .ok (.done [45, 49, 48, 48, 48, 48, 48, 48, 48, 0] 9) := by rfl
 
+/-- `etl::reverse(str + isNegative, str + i)` inside `from_integer`: the model's `revRange` (the contract: the
+    sub-range reversed, everything else unchanged) is what the swap loop of `etl::reverse` does on pointers
+    (the random-access branch, model `Tetl.C06.reverseRA`) — C06's theorem `Tetl.C06.Props.reverseRA_eq`, for every
+    buffer and every `[s, e)` inside it.  So `fromInteger_eq` is a statement about the loop, not about a stated
+    contract. -/
+theorem revRange_is_etl_reverse (buf : List Nat) (s e : Nat) (h : s ≤ e ∧ e ≤ buf.length) :
+    Tetl.C06.reverseRA buf s e = revRange buf s e := by
+  have hdec : buf = buf.take s ++ (buf.drop s).take (e - s) ++ buf.drop e := by
+    have h1 : buf.drop s = (buf.drop s).take (e - s) ++ (buf.drop s).drop (e - s) := (List.take_append_drop _ _).symm
+    have h2 : (buf.drop s).drop (e - s) = buf.drop e := by rw [List.drop_drop]; congr 1; omega
+    rw [h2] at h1
+    rw [List.append_assoc, ← h1, List.take_append_drop]
+  have hl1 : (buf.take s).length = s := by rw [List.length_take]; omega
+  have hl2 : s + ((buf.drop s).take (e - s)).length = e := by
+    rw [List.length_take, List.length_drop]; omega
+  have key := Tetl.C06.Props.reverseRA_eq (buf.take s) ((buf.drop s).take (e - s)) (buf.drop e)
+  rw [← hdec, hl1, hl2] at key
+  rw [key]
+  unfold revRange
+  rw [if_pos h]
+
+example : Tetl.C06.reverseRA [45, 51, 50, 49, 170] 1 4 = .ok [45, 49, 50, 51, 170] ∧
+    revRange [45, 51, 50, 49, 170] 1 4 = .ok [45, 49, 50, 51, 170] := by
+  refine ⟨by rfl, by rfl⟩
+
 /-- `to_chars`: `{first + n, {}}` with exactly the `n` characters of the value when they fit into
     `[first, last)` — an exact fit included — and `{last, value_too_large}` otherwise; nothing outside
     `[first, last)` is written (every write is checked) and the bytes after `ptr` keep their value. -/
@@ -133,28 +159,8 @@ and `8 ≤ bits` (so that the type holds the base; true for every C++ integer ty
     (`end = begin`, `value = 0` on both errors, as its tests require). -/
 theorem toInteger_eq (t : IntTy) (h8 : 8 ≤ t.bits) (ws : Bool) (s : List Nat) (hbytes : ∀ c ∈ s, c < 256)
     (b : Nat) (hb : 2 ≤ b ∧ b ≤ 36) :
-    toInteger t ws s b = .ok (TIRes.ofSpec (Spec.parse t ws s b)) := by
-  unfold toInteger
-  have hbase : (((b : Int) != 0) && (decide ((b : Int) < 2) || decide ((b : Int) > 36))) = false := by
-    have : (decide ((b : Int) < 2) || decide ((b : Int) > 36)) = false := by
-      simp only [Bool.or_eq_false_iff, decide_eq_false_iff_not]; omega
-    rw [this, Bool.and_false]
-  simp only [hbase, Bool.false_eq_true, if_false]
-  rw [parse_eq]
-  cases ws with
-  | false =>
-    simp only [Bool.false_eq_true, if_false, ok_bind]
-    exact toIntegerAt_spec t h8 b hb [] s hbytes
-  | true =>
-    simp only [if_true]
-    have hsk := skipWs_spec s [] hbytes
-    simp only [List.nil_append, List.length_nil, Nat.zero_add] at hsk
-    rw [hsk]
-    simp only [ok_bind]
-    have h := toIntegerAt_spec t h8 b hb (s.takeWhile Spec.isSpace) (s.dropWhile Spec.isSpace)
-      (fun c hc => hbytes c ((List.dropWhile_sublist _).subset hc))
-    rw [List.takeWhile_append_dropWhile] at h
-    exact h
+    toInteger t ws s b = .ok (TIRes.ofSpec (Spec.parse t ws s b)) :=
+  toInteger_spec t h8 ws s hbytes b hb
 
 /-- non-vacuity: `" -128x"` as `int8_t`, base 10, with white-space skipping -/
 example : toInteger ⟨8, true⟩ true [32, 45, 49, 50, 56, 120] 10 = .ok ⟨5, .none, -128⟩ := by rfl
@@ -294,115 +300,74 @@ example : fromChars ⟨32, true⟩ [45, 102, 102] 16 = .ok (.ok (-255) 3) := by 
 
 /-! ## the `strto*` / `sto*` / `ato*` family
 
-`strtol`, `strtoll`, `strtoul`, `strtoull`, `stoi` … `stoull` are `to_integer` with white-space
-skipping on the C string / view; the reference is the C grammar `Spec.strto` (sign `+`/`-`, `0x`,
-base 0, saturation + `ERANGE`, negation in the unsigned type).  The four excluded input classes are
-the recorded findings F-C10-cstdlib-plus-sign, -base-prefix (base 16 only), -range and
-F-C10-strtoul-minus.  Base 0 is covered by `strto_auto_eq_partial` (F-C10-cstdlib-base-zero: fixed). -/
+`strtol`, `strtoll`, `strtoul`, `strtoull`, `atoi`, `atol`, `atoll`, `stoi` … `stoull` are
+`strings::detail::strto_integer` on the C string / view: white space, one sign `+`/`-`, a `0x`/`0X` prefix in
+base 16 (base 0 is detected by `to_integer`), the digits converted by `to_integer` in the unsigned type, negation
+in the unsigned type, saturation at the limits.  The reference is the C grammar `Spec.strto` (C17 7.22.1.4).
+`errno = ERANGE` is outside the model (a freestanding library has no `errno`): the theorems are about the value
+and the end pointer / `*pos`; `Spec.StrtoRes.erange` is only used by the run to mask `ato*` (undefined behaviour
+in C when the value is not representable) and to recognise where `std::sto*` throw. -/
 
-/-- value and end pointer / `*pos` equal the C library's for every text outside the four classes -/
-theorem strto_eq_partial (t : IntTy) (h8 : 8 ≤ t.bits) (s : List Nat) (hbytes : ∀ c ∈ s, c < 256)
-    (b : Nat) (hb : 2 ≤ b ∧ b ≤ 36)
-    (h1 : Spec.plusSign s = false) (h2 : Spec.basePrefix s b = false)
-    (h3 : Spec.unsignedMinus t s = false) (h4 : (Spec.strto t s b).erange = false) :
-    strto t s b = .ok ((Spec.strto t s b).value, (Spec.strto t s b).endPos) := by
-  unfold strto
-  rw [toInteger_eq t h8 true s hbytes b hb]
-  obtain ⟨hv, he⟩ := strto_spec_eq t s b hb h1 h2 h3 h4
-  simp only [ok_bind, hv, he]
+/-- value and end pointer / `*pos` equal the C library's for EVERY text and every base 0, 2..36: a leading `+`,
+    `-` with an unsigned result type (negation modulo `2^bits`), a `0x`/`0X` prefix with base 16 or 0, saturation
+    to `max()` / `min()` with the end behind the digits.  (Before the repairs F-C10-cstdlib-plus-sign,
+    F-C10-strtoul-minus, F-C10-cstdlib-base-prefix and F-C10-cstdlib-range this held only outside those four
+    input classes: `strto_eq_partial`.)  Every read is inside the text (`.ok`). -/
+theorem strto_eq (t : IntTy) (h8 : 8 ≤ t.bits) (s : List Nat) (hbytes : ∀ c ∈ s, c < 256)
+    (b : Nat) (hb : b = 0 ∨ (2 ≤ b ∧ b ≤ 36)) :
+    strto t s b = .ok ((Spec.strto t s b).value, (Spec.strto t s b).endPos) :=
+  strto_spec t h8 s hbytes b hb
 
-/-- non-vacuity: `"  -7fz"` in base 16 as `long` satisfies the four hypotheses -/
-example : Spec.plusSign [32, 32, 45, 55, 102, 122] = false ∧ Spec.basePrefix [32, 32, 45, 55, 102, 122] 16 = false ∧
-    Spec.unsignedMinus ⟨64, true⟩ [32, 32, 45, 55, 102, 122] = false ∧
-    Spec.strto ⟨64, true⟩ [32, 32, 45, 55, 102, 122] 16 = ⟨-127, 5, false⟩ := by
-  refine ⟨by rfl, by rfl, by rfl, by rfl⟩
-
-/-- base 0: value and end pointer / `*pos` equal the C library's auto-detecting conversion for every text
-    outside the three classes that remain (a `0x` prefix is handled with base 0, so `Spec.basePrefix`,
-    which needs base 16, is not among them) -/
-theorem strto_auto_eq_partial (t : IntTy) (h8 : 8 ≤ t.bits) (s : List Nat) (hbytes : ∀ c ∈ s, c < 256)
-    (h1 : Spec.plusSign s = false) (h3 : Spec.unsignedMinus t s = false)
-    (h4 : (Spec.strto t s 0).erange = false) :
-    strto t s 0 = .ok ((Spec.strto t s 0).value, (Spec.strto t s 0).endPos) := by
-  unfold strto
-  rw [toInteger_auto_eq t h8 true s hbytes]
-  obtain ⟨hv, he⟩ := strto_spec_eq_auto t s h1 h3 h4
-  simp only [ok_bind, hv, he]
-
-/-- non-vacuity: `"\t-0x1Fg"`, `"0755 "` and `"0x"` satisfy the hypotheses; hex, octal, and the lone `0` -/
-example : Spec.plusSign [9, 45, 48, 120, 49, 70, 103] = false ∧ Spec.unsignedMinus ⟨64, true⟩ [9, 45, 48, 120, 49, 70, 103] = false ∧
-    Spec.strto ⟨64, true⟩ [9, 45, 48, 120, 49, 70, 103] 0 = ⟨-31, 6, false⟩ ∧
-    strto ⟨64, true⟩ [9, 45, 48, 120, 49, 70, 103] 0 = .ok (-31, 6) := by
-  refine ⟨by rfl, by rfl, by rfl, by rfl⟩
-example : Spec.strto ⟨64, false⟩ [48, 55, 53, 53, 32] 0 = ⟨493, 4, false⟩ ∧
-    strto ⟨64, false⟩ [48, 55, 53, 53, 32] 0 = .ok (493, 4) := by
+/-- non-vacuity / the witnesses of the four repaired findings: `" +12"`, `"0x1f"` in base 16, eleven `9`s as `int`
+    (saturation, end behind the digits), `"-1"` as `unsigned long` -/
+example : strto ⟨64, true⟩ [32, 43, 49, 50] 10 = .ok (12, 4) ∧
+    Spec.strto ⟨64, true⟩ [32, 43, 49, 50] 10 = ⟨12, 4, false⟩ := by refine ⟨by rfl, by rfl⟩
+example : strto ⟨64, true⟩ [48, 120, 49, 102] 16 = .ok (31, 4) ∧
+    Spec.strto ⟨64, true⟩ [48, 120, 49, 102] 16 = ⟨31, 4, false⟩ := by refine ⟨by rfl, by rfl⟩
+example : strto ⟨32, true⟩ [57, 57, 57, 57, 57, 57, 57, 57, 57, 57, 57] 10 = .ok (2147483647, 11) ∧
+    Spec.strto ⟨32, true⟩ [57, 57, 57, 57, 57, 57, 57, 57, 57, 57, 57] 10 = ⟨2147483647, 11, true⟩ := by
   refine ⟨by rfl, by rfl⟩
-example : Spec.strto ⟨64, true⟩ [48, 120] 0 = ⟨0, 1, false⟩ ∧ strto ⟨64, true⟩ [48, 120] 0 = .ok (0, 1) := by
+example : strto ⟨64, false⟩ [45, 49] 10 = .ok (18446744073709551615, 2) ∧
+    Spec.strto ⟨64, false⟩ [45, 49] 10 = ⟨18446744073709551615, 2, false⟩ := by refine ⟨by rfl, by rfl⟩
+/-- further samples: `"  -7fz"` in base 16; base 0: `"\t-0x1Fg"`, `"0755 "`, the lone `"0x"`; `LONG_MIN` exactly and
+    one below (saturates); twenty-one `9`s as `unsigned long` with a `-` (saturates to `ULONG_MAX`) -/
+example : strto ⟨64, true⟩ [32, 32, 45, 55, 102, 122] 16 = .ok (-127, 5) := by rfl
+example : strto ⟨64, true⟩ [9, 45, 48, 120, 49, 70, 103] 0 = .ok (-31, 6) ∧
+    Spec.strto ⟨64, true⟩ [9, 45, 48, 120, 49, 70, 103] 0 = ⟨-31, 6, false⟩ := by refine ⟨by rfl, by rfl⟩
+example : strto ⟨64, false⟩ [48, 55, 53, 53, 32] 0 = .ok (493, 4) := by rfl
+example : strto ⟨64, true⟩ [48, 120] 0 = .ok (0, 1) ∧ strto ⟨64, true⟩ [48, 120] 16 = .ok (0, 1) := by
   refine ⟨by rfl, by rfl⟩
+example : strto ⟨8, true⟩ [45, 49, 50, 56] 10 = .ok (-128, 4) ∧ strto ⟨8, true⟩ [45, 49, 50, 57] 10 = .ok (-128, 4) := by
+  refine ⟨by rfl, by rfl⟩
+example : strto ⟨8, false⟩ [45, 57, 57, 57] 10 = .ok (255, 4) := by rfl
 
 /-- `strtol`, `strtoll`, `strtoul`, `strtoull` on a `char const*`, base 0 or 2..36: nothing at or after the first
-    NUL is read (the conversion runs on `cstrOf s`), and outside the classes value and end pointer are the
-    C library's -/
-theorem cstrto_eq_partial (t : IntTy) (h8 : 8 ≤ t.bits) (s : List Nat) (hbytes : ∀ c ∈ s, c < 256)
-    (b : Nat) (hb : b = 0 ∨ (2 ≤ b ∧ b ≤ 36))
-    (h1 : Spec.plusSign (cstrOf s) = false) (h2 : Spec.basePrefix (cstrOf s) b = false)
-    (h3 : Spec.unsignedMinus t (cstrOf s) = false) (h4 : (Spec.strto t (cstrOf s) b).erange = false) :
+    NUL is read (the conversion runs on `cstrOf s`), and value and end pointer are the C library's -/
+theorem cstrto_eq (t : IntTy) (h8 : 8 ≤ t.bits) (s : List Nat) (hbytes : ∀ c ∈ s, c < 256)
+    (b : Nat) (hb : b = 0 ∨ (2 ≤ b ∧ b ≤ 36)) :
     cstrto t s b = .ok ((Spec.strto t (cstrOf s) b).value, (Spec.strto t (cstrOf s) b).endPos) := by
   unfold cstrto
-  have hb' : ∀ c ∈ cstrOf s, c < 256 := fun c hc => hbytes c ((List.takeWhile_sublist _).subset hc)
-  rcases hb with hb | hb
-  · subst hb
-    exact strto_auto_eq_partial t h8 (cstrOf s) hb' h1 h3 h4
-  · exact strto_eq_partial t h8 (cstrOf s) hb' b hb h1 h2 h3 h4
+  exact strto_eq t h8 (cstrOf s) (fun c hc => hbytes c ((List.takeWhile_sublist _).subset hc)) b hb
 
 /-- non-vacuity: `"0x10\0 9"` with base 0 — the text after the NUL is not part of the number -/
 example : cstrto ⟨64, true⟩ [48, 120, 49, 48, 0, 32, 57] 0 = .ok (16, 4) ∧
     Spec.strto ⟨64, true⟩ (cstrOf [48, 120, 49, 48, 0, 32, 57]) 0 = ⟨16, 4, false⟩ := by
   refine ⟨by rfl, by rfl⟩
 
-/-- `atoi`/`atol`/`atoll`: the value of `strtol(str, nullptr, 10)` outside the same classes -/
-theorem ato_eq_partial (t : IntTy) (h8 : 8 ≤ t.bits) (s : List Nat) (hbytes : ∀ c ∈ s, c < 256)
-    (h1 : Spec.plusSign (cstrOf s) = false) (h3 : Spec.unsignedMinus t (cstrOf s) = false)
-    (h4 : (Spec.strto t (cstrOf s) 10).erange = false) :
+/-- `atoi`/`atol`/`atoll`: the value of `strtol(str, nullptr, 10)` converted in the result type, for every text
+    (C leaves the behaviour undefined when the value is not representable; here it is the saturated value) -/
+theorem ato_eq (t : IntTy) (h8 : 8 ≤ t.bits) (s : List Nat) (hbytes : ∀ c ∈ s, c < 256) :
     ato t s = .ok (Spec.strto t (cstrOf s) 10).value := by
   unfold ato
-  have hb' : ∀ c ∈ cstrOf s, c < 256 := fun c hc => hbytes c ((List.takeWhile_sublist _).subset hc)
-  have h2 : Spec.basePrefix (cstrOf s) 10 = false := by simp [Spec.basePrefix]
-  have h := toInteger_eq t h8 true (cstrOf s) hb' 10 (by omega)
+  have h := strto_eq t h8 (cstrOf s) (fun c hc => hbytes c ((List.takeWhile_sublist _).subset hc)) 10 (Or.inr (by omega))
   have e : ((10 : Nat) : Int) = (10 : Int) := rfl
   rw [e] at h
   rw [h]
-  obtain ⟨hv, _⟩ := strto_spec_eq t (cstrOf s) 10 (by omega) h1 h2 h3 h4
-  simp only [ok_bind, hv]
+  rfl
 
-/-- non-vacuity: `" -12x\\0 9"` satisfies the hypotheses, and the value is -12 -/
-example : Spec.plusSign (cstrOf [32, 45, 49, 50, 120, 0, 57]) = false ∧
-    Spec.unsignedMinus ⟨32, true⟩ (cstrOf [32, 45, 49, 50, 120, 0, 57]) = false ∧
-    (Spec.strto ⟨32, true⟩ (cstrOf [32, 45, 49, 50, 120, 0, 57]) 10).erange = false ∧
-    ato ⟨32, true⟩ [32, 45, 49, 50, 120, 0, 57] = .ok (-12) := by
-  refine ⟨by rfl, by rfl, by rfl, by rfl⟩
-
-/-- each excluded class contains an input on which the model (= the code) and the C grammar differ -/
-theorem strto_plus_counterexample :
-    Spec.plusSign [32, 43, 49, 50] = true ∧ strto ⟨64, true⟩ [32, 43, 49, 50] 10 = .ok (0, 0) ∧
-    Spec.strto ⟨64, true⟩ [32, 43, 49, 50] 10 = ⟨12, 4, false⟩ := by
-  refine ⟨by rfl, by rfl, by rfl⟩
-
-theorem strto_prefix_counterexample :
-    Spec.basePrefix [48, 120, 49, 102] 16 = true ∧ strto ⟨64, true⟩ [48, 120, 49, 102] 16 = .ok (0, 1) ∧
-    Spec.strto ⟨64, true⟩ [48, 120, 49, 102] 16 = ⟨31, 4, false⟩ := by
-  refine ⟨by rfl, by rfl, by rfl⟩
-
-theorem strto_range_counterexample :
-    (Spec.strto ⟨32, true⟩ [57, 57, 57, 57, 57, 57, 57, 57, 57, 57, 57] 10).erange = true ∧
-    strto ⟨32, true⟩ [57, 57, 57, 57, 57, 57, 57, 57, 57, 57, 57] 10 = .ok (0, 0) ∧
-    Spec.strto ⟨32, true⟩ [57, 57, 57, 57, 57, 57, 57, 57, 57, 57, 57] 10 = ⟨2147483647, 11, true⟩ := by
-  refine ⟨by rfl, by rfl, by rfl⟩
-
-theorem strto_minus_counterexample :
-    Spec.unsignedMinus ⟨64, false⟩ [45, 49] = true ∧ strto ⟨64, false⟩ [45, 49] 10 = .ok (0, 0) ∧
-    Spec.strto ⟨64, false⟩ [45, 49] 10 = ⟨18446744073709551615, 2, false⟩ := by
-  refine ⟨by rfl, by rfl, by rfl⟩
+/-- non-vacuity: `" -12x\\0 9"` is -12, `"+7"` is 7 -/
+example : ato ⟨32, true⟩ [32, 45, 49, 50, 120, 0, 57] = .ok (-12) ∧ ato ⟨32, true⟩ [43, 55] = .ok 7 := by
+  refine ⟨by rfl, by rfl⟩
 
 /-! ## the reference itself -/
 
